@@ -393,10 +393,11 @@ def build_scenario(scen, inp, ref, rundir, repaired_shape):
                 elif e.startswith("f0"):
                     its.append("T")
             trailing = sum(1 for e in evs[last_w + 1:] if e.startswith("f0"))
-            rest = trailing - 2 * EXIT_ROUNDS[0] - (1 if repaired else 0)
-            nfin = (sc.nonwarn_trailing - 2 * EXIT_ROUNDS[0] - (1 if repaired else 0)) if sc.nonwarn_trailing is not None else rest
+            # - 2: QPDFLogger::Members::~Members after main has returned (cout.flush(), and cerr.flush() flushing the tied cout)
+            rest = trailing - 2 * EXIT_ROUNDS[0] - 2 - (1 if repaired else 0)
+            nfin = (sc.nonwarn_trailing - 2 * EXIT_ROUNDS[0] - 2 - (1 if repaired else 0)) if sc.nonwarn_trailing is not None else rest
             nfin = max(0, min(nfin, rest))
-            return "O!%d!%d!%s" % (nfin, max(0, rest - nfin), "!".join(its) or "T")
+            return "O!%d!%d!%d!%s" % (nfin, max(0, rest - nfin), 1 if scen == "attach" else 0, "!".join(its) or "T")
         if kind == "R":
             return "R!1!2!3!%s!%s" % (lens_str(lens.get(3, [])), hexs(sc.new))
     sc.spec = spec
